@@ -156,6 +156,10 @@ def check(mode, prop, level, assumptions, call="vgen.CheckAll()"):
                     merged["violations"].append({"sig": v[0], "desc": v[1][:3000] + "\nsource: " + e["source"][:1500], "replay": rep})
                 if len(merged["samples"]) < 10 and merged["evaluations"] % 9 == 1:
                     merged["samples"].append({"schema": e["id"], "source": e["source"][:400], "outcome": outcome})
+        if mode == "c14":
+            for sig, desc in cli_check():
+                merged["violations"].append({"sig": sig, "desc": desc, "replay": {"id": "cli", "source": desc}})
+            merged["evaluations"] += 4
         merged["rule"] = RULES[mode] % {"total": total}
         merged["parts"] = {mode: {"evaluations": merged["evaluations"], "distinct": merged["distinct"], "states": 0, "transitions": 0, "exhaustive": True, "wall_s": time.time() - t0, "rule": merged["rule"]}}
         return V.finish(prop_, level, tier, seed, merged, [], assumptions, t0)
@@ -167,3 +171,33 @@ RULES = {
     "c14": "%(total)d schemas: the valid C05 schemas plus one mutation operator per language rule applied at its applicable sites; each goes through the real compile+generate pipeline in-process and every generated package through `go build`: the result must be an error naming the offending element, or code the Go compiler accepts; never a panic; distinct_nontrivial = schemas the compiler accepted",
     "c16": "%(total)d (schema A, schema A') pairs derived by edit sequences of length <=2 {add field of each kind, remove, rename, reorder}; values written with A's generated writer and read with A' (and back); Copy/Merge through A' preserves A's unknown fields",
 }
+
+
+def cli_check():
+    """the real CLI entry point: exit status must be non-zero after a lexical error or a broken rule, zero for a valid schema."""
+    d = os.path.join(V.SCRATCH, "gen", "cli")
+    shutil.rmtree(d, ignore_errors=True)
+    os.makedirs(d)
+    binp = os.path.join(V.SCRATCH, "bin", "spec")
+    r = subprocess.run(["go", "build", "-o", binp, "./cmd/spec"], cwd=V.REPO, env=goenv(), capture_output=True, text=True)
+    if r.returncode != 0:
+        return [("cmd/spec does not build", r.stderr[-1500:])]
+    cases = {
+        "valid": ("options ( go_package=\"x/valid\" )\nmessage M { a int32 1; }\n", 0),
+        "lexerr": ("options ( go_package=\"x/lexerr\" )\nmessage M { a int32 1; }\noptions (\n x=\"abc\n)\n", 1),
+        "badchar": ("options ( go_package=\"x/badchar\" )\nmessage M { a int32 1; } @\n", 1),
+        "rule": ("options ( go_package=\"x/rule\" )\nmessage M { a int32 0; }\n", 1),
+    }
+    out = []
+    for name, (text, want_fail) in cases.items():
+        sd = os.path.join(d, name)
+        os.makedirs(sd)
+        with open(os.path.join(sd, "f.spec"), "w") as f:
+            f.write(text)
+        r = subprocess.run([binp, "generate", sd, os.path.join(d, "out_" + name)], capture_output=True, text=True, timeout=60)
+        failed = r.returncode != 0
+        if failed != bool(want_fail):
+            out.append(("spec generate exits %s for a %s schema" % ("non-zero" if failed else "zero (success)", name),
+                        "cmd/spec generate on:\n%s\nexit=%d stderr=%s" % (text, r.returncode, r.stderr[-600:])))
+    shutil.rmtree(d, ignore_errors=True)
+    return out
